@@ -218,7 +218,7 @@ def finderFind (d : DCtx) (w : World) : Nat → Nat → Sid → Except Err (List
     | .error e => .error e
     | .ok sid =>
       let searches : Except Err (List Sid) :=
-        if sid.typed && !d.ctx.isSearch sid && !d.ctx.isAliasSearch sid then .ok [sid]
+        if sid.typed && !d.ctx.isSearch sid && !d.ctx.isAliasSearch sid && !Str.hasChar '?' sid.string then .ok [sid]
         else d.ctx.unfoldSearch search.string false false
       match searches with
       | .error e => .error e
